@@ -42,7 +42,9 @@ func marker(vid int) string { return fmt.Sprintf("vid-%d", vid) }
 func genEntry(rng *rand.Rand, vid int) Entry {
 	e := Entry{Vid: vid, Payload: map[string]any{}}
 	big := func() any {
-		switch rng.Intn(4) {
+		switch rng.Intn(5) {
+		case 4:
+			return rng.Int63() // beyond 2^53 as a bare JSON number: an int64 field takes it exactly
 		case 0:
 			return rng.Int63n(1 << 53)
 		case 1:
